@@ -7,16 +7,17 @@
 //!   the VIOLATION line and exits with status 1. The handler only uses async-signal-safe calls
 //!   (open, write, close, _exit) on pre-formatted buffers.
 //! * A case that does not return (a loop that takes no engine steps, e.g. `walk` on a cyclic
-//!   variable chain) is ended by a watchdog thread after WATCHDOG_SECS: the case is saved and the
+//!   variable chain) is ended by a watchdog thread after WATCHDOG_SECS (generous: on a loaded machine a legitimate
+//!   large case of a scale family may take a minute): the case is saved and the
 //!   process exits with status 2 ("inconclusive"), never as a violation.
 
 use std::sync::atomic::{AtomicBool, AtomicU64, AtomicUsize, Ordering};
 
 const NSLOTS: usize = 64;
 const MAXB: usize = 2048;
-pub const WATCHDOG_SECS: u64 = 120;
+pub const WATCHDOG_SECS: u64 = 900;
 /// the thorough tier's scale cases are five times larger
-pub const WATCHDOG_SECS_THOROUGH: u64 = 600;
+pub const WATCHDOG_SECS_THOROUGH: u64 = 1800;
 
 struct Slot {
     busy: AtomicBool,
